@@ -8,6 +8,8 @@
 //! (misbehaviour / invalid timestamp), gossip-store rows.
 //!
 //! Oracle = the property statement on what the real code did:
+//! * every stored row and every announcement written passes `Announcement::verify()`, evaluated on the real
+//!   message independently of the case text (`stored-unauthenticated`, `relayed-unauthenticated`);
 //! * a gossip-store row of another node appears only in the step that delivers exactly that announcement,
 //!   with a valid signature (`stored-unauthenticated`), a timestamp at most one hour ahead
 //!   (`stored-future-timestamp`), non-zero, strictly newer than the stored row of the same (node, kind, repo)
@@ -53,6 +55,7 @@ fn oracle(recs: &[StepRec], tags: &mut Vec<String>) -> Vec<(String, String)> {
     let mut deliveries: Vec<Delivery> = vec![];
     let mut node_seen: BTreeSet<u64> = BTreeSet::new(); // announcers whose node announcement was stored
     let mut prev_rows: Vec<AnnObs> = vec![];
+    let mut rows_before_unverified: Vec<AnnObs> = vec![];
     // rows that were really pruned: gone after a wake (`Elapse`) and older than the prune cut-off
     // (`now - gossip_max_age`) at that wake — (announcement, step)
     let mut pruned_at: Vec<(AnnObs, usize)> = vec![];
@@ -114,6 +117,19 @@ fn oracle(recs: &[StepRec], tags: &mut Vec<String>) -> Vec<(String, String)> {
         }
         if let Op::KnowNode(n, _) = &r.op {
             node_seen.insert(*n); // the address book was told about this node (stands for an earlier node announcement)
+        }
+        // --- authenticity, evaluated independently on the real messages: every stored row and every
+        // announcement written must pass `Announcement::verify()`
+        for x in &r.rows_unverified {
+            if !rows_before_unverified.contains(x) {
+                viol.push(("stored-unauthenticated".into(), format!("op {j}: the stored announcement {} does not verify", x.show())));
+            }
+        }
+        rows_before_unverified = r.rows_unverified.clone();
+        for w in &r.writes {
+            if !w.verified {
+                viol.push(("relayed-unauthenticated".into(), format!("op {j}: {} written but it does not verify", w.show())));
+            }
         }
         // --- writes
         let is_replay = matches!(r.op, Op::Subscribe(..));
@@ -193,6 +209,8 @@ fn oracle(recs: &[StepRec], tags: &mut Vec<String>) -> Vec<(String, String)> {
             let same_key = rows_before.iter().find(|o| o.node == x.node && o.kind == x.kind && o.repo == x.repo);
             let t = if !had_session {
                 "recv-no-session"
+            } else if a.reuse.is_some() {
+                "recv-forged-reused-signature"
             } else if !a.sig_ok {
                 "recv-forged"
             } else if a.node == 0 {
@@ -281,11 +299,70 @@ struct Gen {
     clock: u64,
     connected: Vec<u64>,
     pool: Vec<AnnSpec>,
+    /// genuine announcements delivered so far, with their op number in the case
+    genuine: Vec<(usize, AnnSpec)>,
     /// newest timestamp generated per (node, kind, repo)
     newest: std::collections::BTreeMap<(u64, char, u64), u64>,
 }
 
 impl Gen {
+    /// Push the delivery of `a` by `p`; remembers genuine announcements with their op number.
+    fn deliver(&mut self, p: u64, a: &AnnSpec) {
+        if a.sig_ok && a.reuse.is_none() {
+            self.genuine.push((self.toks.len() - 2, a.clone()));
+        }
+        self.toks.push(ann_tok(p, a));
+    }
+
+    /// A forged announcement carrying the signature bytes of a genuine one of this case: same announcer
+    /// with other content and a strictly newer timestamp, another announcer, or another kind.
+    fn forged_reuse(&mut self, rng: &mut Rng) -> Option<AnnSpec> {
+        if self.genuine.is_empty() {
+            return None;
+        }
+        let (k, g) = self.genuine[rng.below(self.genuine.len() as u64) as usize].clone();
+        let mut f = g.clone();
+        f.sig_ok = false;
+        f.reuse = Some(k);
+        match rng.below(4) {
+            0 | 1 => {
+                // same announcer, same kind, other content, strictly newer (at most one hour ahead)
+                f.ts = (g.ts + rng.range(1, 50)).min(self.clock + HOUR);
+                match f.kind {
+                    Kind::Inv => f.inv = (0..N_RIDS).filter(|r| !g.inv.contains(r)).take(2).collect(),
+                    Kind::Refs => f.repo = (g.repo + 1) % N_RIDS.min(3),
+                    Kind::Node => {}
+                }
+                if f.ts == g.ts && f.inv == g.inv && f.repo == g.repo {
+                    f.ts = g.ts + 1;
+                }
+            }
+            2 => {
+                // another announcer claims it
+                f.node = if g.node == 5 { 1 } else { g.node + 1 };
+            }
+            _ => {
+                // another kind under the same signature
+                match g.kind {
+                    Kind::Inv => {
+                        f.kind = Kind::Refs;
+                        f.inv = vec![];
+                        f.repo = 0;
+                        f.flag = true;
+                    }
+                    _ => {
+                        f.kind = Kind::Inv;
+                        f.repo = 0;
+                        f.inv = vec![1];
+                        f.flag = false;
+                    }
+                }
+                f.ts = g.ts + 1;
+            }
+        }
+        Some(f)
+    }
+
     fn elapse(&mut self, dt: u64) {
         self.clock += dt;
         if self.clock - self.last_gossip >= 6000 {
@@ -339,7 +416,7 @@ impl Gen {
         } else {
             vec![]
         };
-        let a = AnnSpec { node, kind, repo, ts, sig_ok: !rng.chance(1, 9), inv, flag };
+        let a = AnnSpec { node, kind, repo, ts, sig_ok: !rng.chance(1, 9), inv, flag, reuse: None };
         if a.sig_ok && ts <= c + HOUR {
             let e = self.newest.entry(key).or_insert(0);
             if ts > *e {
@@ -360,6 +437,7 @@ fn gen_case(rng: &mut Rng, max_ops: u64, allow_seed: bool) -> String {
         clock: t0,
         connected: vec![],
         pool: vec![],
+        genuine: vec![],
         newest: Default::default(),
     };
     // a few repositories so that refs announcements can be relayed (in storage, public, seeded)
@@ -403,15 +481,22 @@ fn gen_case(rng: &mut Rng, max_ops: u64, allow_seed: bool) -> String {
             0..=44 => {
                 let a = g.ann(rng, n_repos, allow_seed);
                 let p = if rng.chance(1, 15) || g.connected.is_empty() { rng.range(1, 4) } else { *rng.pick(&g.connected) };
-                g.toks.push(ann_tok(p, &a));
+                g.deliver(p, &a);
                 g.pool.push(a);
             }
-            45..=59 => {
+            45..=55 => {
                 // the same announcement again, usually from another peer
                 if !g.pool.is_empty() && !g.connected.is_empty() {
                     let a = rng.pick(&g.pool).clone();
                     let p = *rng.pick(&g.connected);
-                    g.toks.push(ann_tok(p, &a));
+                    g.deliver(p, &a);
+                }
+            }
+            56..=59 => {
+                // a forgery that re-uses the signature bytes of a genuine announcement (accepted or not)
+                if let Some(f) = g.forged_reuse(rng) {
+                    let p = if g.connected.is_empty() { 1 } else { *rng.pick(&g.connected) };
+                    g.deliver(p, &f);
                 }
             }
             60..=74 => {
@@ -433,17 +518,17 @@ fn gen_case(rng: &mut Rng, max_ops: u64, allow_seed: bool) -> String {
                         let mut a = g.ann(rng, n_repos, false);
                         if rng.chance(3, 4) {
                             // a fresh inventory of a probably known announcer
-                            a = AnnSpec { node: rng.range(1, 5), kind: Kind::Inv, repo: 0, ts: g.clock + rng.below(3), sig_ok: true, inv: vec![rng.below(N_RIDS)], flag: false };
+                            a = AnnSpec { node: rng.range(1, 5), kind: Kind::Inv, repo: 0, ts: g.clock + rng.below(3), sig_ok: true, inv: vec![rng.below(N_RIDS)], flag: false, reuse: None };
                         }
                         let p = if g.connected.is_empty() { 1 } else { *rng.pick(&g.connected) };
-                        g.toks.push(ann_tok(p, &a));
+                        g.deliver(p, &a);
                         g.pool.push(a);
                     }
                     g.elapse(lead); // prune due, gossip not (lead < 6000)
                     if rng.bool() && !g.pool.is_empty() && !g.connected.is_empty() {
                         let a = g.pool[g.pool.len() - 1].clone();
                         let p = *rng.pick(&g.connected);
-                        g.toks.push(ann_tok(p, &a));
+                        g.deliver(p, &a);
                     }
                     g.elapse(6000 - lead);
                     g.elapse(lead);
